@@ -451,6 +451,9 @@ func (s *Sim) grant(t *Task) string {
 			return "default"
 		}
 		t.resp.idx = ready[s.choose(len(ready), nil)]
+		if _, isSend := r.chans[t.resp.idx].(SendCase); isSend {
+			return fmt.Sprintf("case %d (send) of %v", t.resp.idx, ready)
+		}
 		return fmt.Sprintf("case %d of %v", t.resp.idx, ready)
 	case opChoose:
 		t.resp.idx = s.choose(r.n, nil)
